@@ -23,6 +23,8 @@ pub struct Lin {
     /// smallest positive normal number of the scalar type under test (absolute slack for
     /// results in the subnormal range)
     pub tiny: f64,
+    /// largest finite value of the scalar type under test
+    pub huge: f64,
     /// threshold as the code uses it: |eps| rounded to T, or machine epsilon of T
     pub eps: f64,
     /// weights (ones if none)
@@ -126,7 +128,7 @@ impl Lin {
                 _ => (None, None),
             }
         };
-        Ok(Lin { n: sh.n, m: sh.m, s: sh.s, ut, tiny: T::min_positive_value().f(), eps, w, a, phi, b, svd: sv, delta, sure_kept, maybe_kept, class, c_ref, u_ref })
+        Ok(Lin { n: sh.n, m: sh.m, s: sh.s, ut, tiny: T::min_positive_value().f(), huge: T::huge(), eps, w, a, phi, b, svd: sv, delta, sure_kept, maybe_kept, class, c_ref, u_ref })
     }
 
     pub fn k(&self) -> f64 {
@@ -302,6 +304,13 @@ impl Lin {
                 // W∘Phi is rounded to T by the code: entries in the subnormal range carry an absolute
                 // error of one subnormal spacing (tiny·u), which the coefficients amplify
                 let csum: f64 = (0..self.m).map(|j| c.at(j, col).abs()).sum();
+                // the accumulation of (W Phi) C in the scalar type under test passes through partial
+                // sums of up to sum_j |A_ij||C_js|: beyond the largest finite value (seen in f32: weights
+                // of 1e12, observations of 1e13 and a kept singular value of 1e5 give |A||C| = 1e38)
+                // the entry is inf - inf there, whatever the exact value is
+                if !((self.b.at(i, col).abs() + abs_ac.at(i, col)) * (self.m as f64 + 1.0) <= self.huge / 4.0) {
+                    continue;
+                }
                 let bound = kc * self.ut * (self.b.at(i, col).abs() + abs_ac.at(i, col)) + kc * self.tiny * (1.0 + self.ut * csum);
                 if !((got - want).abs() <= bound) {
                     return Err(Fail::new(
